@@ -352,6 +352,8 @@ func HTMLEscape(dst *bytes.Buffer, src []byte) {
 func Valid(data []byte) bool {
 	var v interface{}
 	decoder := NewDecoder(bytes.NewReader(data))
+	// numbers are only checked against the grammar: "1e999" is valid JSON
+	decoder.UseNumber()
 	err := decoder.Decode(&v)
 	if err != nil {
 		return false
